@@ -31,6 +31,8 @@ set_option linter.all false
 
 open EPV EPV.Gen EPV.Spec EPV.Lemmas
 
+open Filter Topology
+
 namespace EPV.C01
 
 /-- the traced model has exactly the leaves the theorems below cover -/
@@ -162,5 +164,99 @@ theorem cog20_pre_energy (p : Cog20.P) (c a lam0 α β r t : ℝ) :
     (Cog20.L1.velocity_hasDerivAt_r p r t).deriv]
   simp only [epv_deriv, epv_leaf]
   ring
+
+/-! ### The returned (tree-level) fields away from the shock -/
+
+/-- the coded shock position of solution 20 (whether it is the right one is C02's business) -/
+noncomputable def cog20_shock (p : Cog20.P) (t : ℝ) : ℝ :=
+  (((p.u0 * (p.gamma - 1)) / (4 * p.a)) * t) * (1 - (2 * p.a) * t) / (1 - p.a * t)
+
+theorem cog20_shock_continuousAt (p : Cog20.P) (t : ℝ) (h1 : 1 - p.a * t ≠ 0) :
+    ContinuousAt (cog20_shock p) t := by
+  unfold cog20_shock
+  exact ContinuousAt.div (by fun_prop) (by fun_prop) h1
+
+/-- behind the coded shock the returned fields are those of leaf 0 near the point -/
+theorem cog20_tree_post (p : Cog20.P) (r t : ℝ) (h1 : 1 - p.a * t ≠ 0) (h : r < cog20_shock p t) :
+    AgreeNear (Cog20.density p) (Cog20.L0.density p) r t
+      ∧ AgreeNear (Cog20.velocity p) (Cog20.L0.velocity p) r t
+      ∧ AgreeNear (Cog20.temperature p) (Cog20.L0.temperature p) r t := by
+  have e : ∀ x s, Cog20.c0 p x s ↔ x < cog20_shock p s := by
+    intro x s; simp only [epv_cond, cog20_shock]
+  have hx : ∀ᶠ x in 𝓝 r, Cog20.c0 p x t := by
+    simp only [e]; exact eventually_lt_nhds h
+  have hs : ∀ᶠ s in 𝓝 t, Cog20.c0 p r s := by
+    simp only [e]
+    exact continuousAt_const.eventually_lt (cog20_shock_continuousAt p t h1) h
+  exact ⟨agreeNear_of_cond (fun x s hc => by simp only [epv_tree, if_pos hc]) hx hs,
+    agreeNear_of_cond (fun x s hc => by simp only [epv_tree, if_pos hc]) hx hs,
+    agreeNear_of_cond (fun x s hc => by simp only [epv_tree, if_pos hc]) hx hs⟩
+
+/-- ahead of the coded shock the returned fields are those of leaf 1 near the point -/
+theorem cog20_tree_pre (p : Cog20.P) (r t : ℝ) (h1 : 1 - p.a * t ≠ 0) (h : cog20_shock p t < r) :
+    AgreeNear (Cog20.density p) (Cog20.L1.density p) r t
+      ∧ AgreeNear (Cog20.velocity p) (Cog20.L1.velocity p) r t
+      ∧ AgreeNear (Cog20.temperature p) (Cog20.L1.temperature p) r t := by
+  have e : ∀ x s, Cog20.c0 p x s ↔ x < cog20_shock p s := by
+    intro x s; simp only [epv_cond, cog20_shock]
+  have hx : ∀ᶠ x in 𝓝 r, ¬ Cog20.c0 p x t := by
+    simp only [e, not_lt]
+    exact (eventually_gt_nhds h).mono fun x hx => hx.le
+  have hs : ∀ᶠ s in 𝓝 t, ¬ Cog20.c0 p r s := by
+    simp only [e, not_lt]
+    exact ((cog20_shock_continuousAt p t h1).eventually_lt continuousAt_const h).mono fun s hs => hs.le
+  exact ⟨agreeNear_of_cond (c := fun x s => ¬ Cog20.c0 p x s) (fun x s hc => by simp only [epv_tree, if_neg hc]) hx hs,
+    agreeNear_of_cond (c := fun x s => ¬ Cog20.c0 p x s) (fun x s hc => by simp only [epv_tree, if_neg hc]) hx hs,
+    agreeNear_of_cond (c := fun x s => ¬ Cog20.c0 p x s) (fun x s hc => by simp only [epv_tree, if_neg hc]) hx hs⟩
+
+/-- mass balance of the returned fields at every point away from the coded shock -/
+theorem cog20_mass_tree (p : Cog20.P) (r t : ℝ) (hr : 0 < r) (hb : 0 < r - p.u0 * t)
+    (h1 : 0 < 1 - p.a * t) (hsh : r ≠ cog20_shock p t) :
+    massRes (Cog20.density p) (Cog20.velocity p) (p.geometry - 1) r t = 0 := by
+  rcases lt_or_gt_of_ne hsh with h | h
+  · obtain ⟨h2, h3, h4⟩ := cog20_tree_post p r t h1.ne' h
+    rw [massRes_congr_near h2 h3]; exact cog20_post_mass p r t hr.ne' h1
+  · obtain ⟨h2, h3, h4⟩ := cog20_tree_pre p r t h1.ne' h
+    rw [massRes_congr_near h2 h3]; exact cog20_pre_mass p r t hr hb h1
+
+/-- momentum balance of the returned fields at every point away from the coded shock -/
+theorem cog20_momentum_tree (p : Cog20.P) (r t : ℝ) (h1 : 0 < 1 - p.a * t) (hsh : r ≠ cog20_shock p t) :
+    momResT (Cog20.density p) (Cog20.velocity p) (Cog20.temperature p) p.Gamma r t = 0 := by
+  rcases lt_or_gt_of_ne hsh with h | h
+  · obtain ⟨h2, h3, h4⟩ := cog20_tree_post p r t h1.ne' h
+    rw [momResT_congr_near h2 h3 h4]; exact cog20_post_momentum p r t h1
+  · obtain ⟨h2, h3, h4⟩ := cog20_tree_pre p r t h1.ne' h
+    rw [momResT_congr_near h2 h3 h4]; exact cog20_pre_momentum p r t h1
+
+/-- PARTIAL: energy balance of the returned fields away from the coded shock, only for
+γ = (k+3)/(k+1) (see `cog20_post_energy_partial`) -/
+theorem cog20_energy_tree_partial (p : Cog20.P) (c a lam0 α β r t : ℝ) (hr : r ≠ 0)
+    (h1 : 0 < 1 - p.a * t) (hΓ : p.Gamma ≠ 0) (hk : (p.geometry - 1) + 1 ≠ 0)
+    (hγ : p.gamma = ((p.geometry - 1) + 3) / ((p.geometry - 1) + 1)) (hsh : r ≠ cog20_shock p t) :
+    energyResT (Cog20.density p) (Cog20.velocity p) (Cog20.temperature p)
+      p.Gamma p.gamma (p.geometry - 1) c a lam0 α β r t = 0 := by
+  rcases lt_or_gt_of_ne hsh with h | h
+  · obtain ⟨h2, h3, h4⟩ := cog20_tree_post p r t h1.ne' h
+    rw [energyResT_congr_near h2 h3 h4]; exact cog20_post_energy_partial p c a lam0 α β r t hr h1 hΓ hk hγ
+  · obtain ⟨h2, h3, h4⟩ := cog20_tree_pre p r t h1.ne' h
+    rw [energyResT_congr_near h2 h3 h4]; exact cog20_pre_energy p c a lam0 α β r t
+
+/-- FINDING (false on the current tree), for the returned fields themselves: class defaults,
+r = 0.1, t = 0.5 (behind the coded shock at 0.3157): the energy residual is not zero -/
+theorem Finding_cog20_energy_tree :
+    ∃ p : Cog20.P, ∃ r t : ℝ, p.geometry = 3 ∧ 0 < r ∧ 0 < t ∧ 0 < 1 - p.a * t ∧ r ≠ cog20_shock p t ∧
+      ∀ c a lam0 α β : ℝ,
+        energyResT (Cog20.density p) (Cog20.velocity p) (Cog20.temperature p)
+          p.Gamma p.gamma (p.geometry - 1) c a lam0 α β r t ≠ 0 := by
+  have hlt : (1 / 10 : ℝ) < cog20_shock ⟨40, 3 / 10, 0, 0, 0, 0, 7 / 5, 3, 0, 9 / 5, 23 / 10⟩ (1 / 2) := by
+    unfold cog20_shock; norm_num
+  refine ⟨⟨40, 3 / 10, 0, 0, 0, 0, 7 / 5, 3, 0, 9 / 5, 23 / 10⟩, 1 / 10, 1 / 2, by norm_num, by norm_num,
+    by norm_num, by norm_num, hlt.ne, ?_⟩
+  intro c a lam0 α β
+  obtain ⟨h2, h3, h4⟩ := cog20_tree_post _ _ _ (by norm_num) hlt
+  rw [energyResT_congr_near h2 h3 h4,
+    cog20_post_energy_residual _ c a lam0 α β _ _ (by norm_num) (by norm_num) (by norm_num) (by norm_num)]
+  simp only [epv_leaf]
+  norm_num
 
 end EPV.C01
